@@ -120,13 +120,14 @@ def memo (m : Mat r c α) : Mat r c α :=
 
 def toList (m : Mat r c α) : List α := (List.finRange r).flatMap (fun i => (List.finRange c).map (m i))
 
-/-- `rotation(v, radians)` with `s = sin`, `c = cos` as leaves; `u = 1 - c` -/
-def rotation (v : Vec 3 α) (s c : α) : Mat 3 3 α :=
-  let u := one - c
+/-- `rotation(v, radians)` with `s = sin`, `c = cos` and `u = 1.0 - c` as leaves (all three are
+computed in `double` by the C++; the matrix entries are then formed in the scalar type `T`) -/
+def rotationU (v : Vec 3 α) (s c u : α) : Mat 3 3 α :=
   let r0 := v3 (v 0*v 0*u + c)     (v 1*v 0*u - v 2*s) (v 2*v 0*u + v 1*s)
   let r1 := v3 (v 0*v 1*u + v 2*s) (v 1*v 1*u + c)     (v 2*v 1*u - v 0*s)
   let r2 := v3 (v 0*v 2*u - v 1*s) (v 1*v 2*u + v 0*s) (v 2*v 2*u + c)
   fun i => match i with | 0 => r0 | 1 => r1 | 2 => r2
+def rotation (v : Vec 3 α) (s c : α) : Mat 3 3 α := rotationU v s c (one - c)
 
 end Mat
 end Epsic
